@@ -73,6 +73,9 @@ def reconstruct(repo: Repo) -> Tuple[str, List[Tuple[str, int, int]], List[str]]
     # emitted constants in source order, split at the file loop
     loop = [n for n in gen.node.body if isinstance(n, ast.For)]
     if len(loop) != 1:
+        # other loops may have been added around the emitted constants: the file loop is the one over the file list
+        loop = [n for n in loop if 'EXTRACT_STANDALONE_FILES' in norm(n.iter)]
+    if len(loop) != 1:
         raise AnalysisError('gen_standalone: expected one loop over EXTRACT_STANDALONE_FILES')
     loop_line = loop[0].lineno
 
@@ -89,12 +92,53 @@ def reconstruct(repo: Repo) -> Tuple[str, List[Tuple[str, int, int]], List[str]]
             except Exception:
                 return a.left.value
         return None
+    def fold(e: ast.AST, env: Dict[str, str]) -> Optional[str]:
+        if isinstance(e, ast.Constant) and isinstance(e.value, str):
+            return e.value
+        if isinstance(e, ast.Name) and e.id in env:
+            return env[e.id]
+        if isinstance(e, ast.BinOp) and isinstance(e.op, ast.Add):
+            l, r = fold(e.left, env), fold(e.right, env)
+            return l + r if l is not None and r is not None else None
+        if isinstance(e, ast.JoinedStr):
+            out_ = ''
+            for v_ in e.values:
+                if isinstance(v_, ast.Constant):
+                    out_ += str(v_.value)
+                elif isinstance(v_, ast.FormattedValue) and fold(v_.value, env) is not None and v_.format_spec is None:
+                    out_ += fold(v_.value, env)
+                else:
+                    return None
+            return out_
+        return None
+
+    # loops over a literal tuple of tuples / strings whose elements start with constants are unrolled (the same lines written
+    # once per name): each output(...) in their body is emitted once per element with the loop variables bound
+    unrolled: Dict[int, List[Dict[str, str]]] = {}
+    for lp_ in [n for n in gen.body_nodes() if isinstance(n, ast.For) and isinstance(n.iter, (ast.Tuple, ast.List)) and n is not loop[0]]:
+        envs = []
+        for el in lp_.iter.elts:
+            env: Dict[str, str] = {}
+            if isinstance(lp_.target, ast.Name) and isinstance(el, ast.Constant) and isinstance(el.value, str):
+                env[lp_.target.id] = el.value
+            elif isinstance(lp_.target, ast.Tuple) and isinstance(el, (ast.Tuple, ast.List)):
+                for tv, ev in zip(lp_.target.elts, el.elts):
+                    if isinstance(tv, ast.Name) and isinstance(ev, ast.Constant) and isinstance(ev.value, str):
+                        env[tv.id] = ev.value
+            envs.append(env)
+        for n_ in ast.walk(lp_):
+            if isinstance(n_, ast.Call):
+                unrolled[id(n_)] = envs
     calls = sorted([n for n in gen.body_nodes() if isinstance(n, ast.Call)], key=lambda c: (c.lineno, c.col_offset))
     for c in calls:
-        s = emitted(c)
-        if s is None:
-            continue
-        (prologue if c.lineno < loop_line else epilogue).append(s)
+        envs = unrolled.get(id(c), [{}])
+        for env in envs:
+            s = emitted(c)
+            if s is None and isinstance(c.func, ast.Name) and c.func.id == 'output' and c.args:
+                s = fold(c.args[0], env)
+            if s is None:
+                continue
+            (prologue if c.lineno < loop_line else epilogue).append(s)
     text = ''
     for s in prologue:
         if s.startswith('#'):
